@@ -19,6 +19,7 @@ def ph : CPc → Nat
   | .reporterClose => 6
   | .returned _ => 7
   | .returnedNil => 0
+  | .waitWinner => 0
 
 /-- after a step of its final pass the call is still in the pass, or about to purge -/
 theorem ph_afterPass (oq : Option PassPc) : ph (afterPass oq) = 3 ∨ ph (afterPass oq) = 4 := by
@@ -36,7 +37,7 @@ def wpc (s : State) : CPc :=
   | some w => s.closers w
 
 structure Ctl (s : State) : Prop where
-  others : ∀ t, s.winner ≠ some t → s.closers t = .start ∨ s.closers t = .returnedNil
+  others : ∀ t, s.winner ≠ some t → s.closers t = .start ∨ s.closers t = .returnedNil ∨ s.closers t = .waitWinner
   closed_iff : s.closed = s.winner.isSome
   wne : ∀ w, s.winner = some w → 1 ≤ ph (s.closers w)
   done_iff : s.doneClosed = decide (2 ≤ ph (wpc s))
@@ -45,11 +46,17 @@ structure Ctl (s : State) : Prop where
   purged_iff : s.purged = decide (5 ≤ ph (wpc s))
   rets : ∀ t r, (t, r) ∈ s.returns → s.closers t = .returned r ∨ (s.closers t = .returnedNil ∧ r = none)
   result : ∀ t r, s.closers t = .returned r → r = if s.closable then s.err else none
+  /-- `closeDone` is closed exactly when the winning call has returned (D17) … -/
+  cd_iff : s.closeDone = decide (7 ≤ ph (wpc s))
+  /-- … and a call that lost the CAS has returned only after that -/
+  nil_cd : ∀ t, s.closers t = .returnedNil → s.closeDone = true
+  /-- a call waits at `<-s.closeDone` only because some call has won the CAS -/
+  waitW : ∀ t, s.closers t = .waitWinner → s.closed = true
 
 theorem Ctl.winner_of {s : State} (h : Ctl s) (t : Nat) (hp : 1 ≤ ph (s.closers t)) : s.winner = some t := by
   apply Classical.byContradiction
   intro hne
-  rcases h.others t hne with h1 | h1 <;> rw [h1] at hp <;> simp [ph] at hp
+  rcases h.others t hne with h1 | h1 | h1 <;> rw [h1] at hp <;> simp [ph] at hp
 
 theorem wpc_of_winner {s : State} {t : Nat} (h : s.winner = some t) : wpc s = s.closers t := by
   simp [wpc, h]
@@ -132,28 +139,43 @@ theorem ctl_init (k : Nat) (hl cl : Bool) (er : Option Nat) : Ctl (init k hl cl 
 theorem Ctl.frame {s : State} (h : Ctl s) (c : List (List Token)) (l : List LogEv) (d i : List Token) (n : Nat)
     (hd : List (Option Nat)) :
     Ctl { s with cells := c, log := l, dropped := d, issued := i, nextId := n, handed := hd } := by
-  exact ⟨h.others, h.closed_iff, h.wne, h.done_iff, h.loopEx, h.noLoop, h.purged_iff, h.rets, h.result⟩
+  exact ⟨h.others, h.closed_iff, h.wne, h.done_iff, h.loopEx, h.noLoop, h.purged_iff, h.rets, h.result, h.cd_iff,
+    h.nil_cd, h.waitW⟩
 
 theorem Ctl.loop_frame {s : State} (h : Ctl s) (hne : s.loop ≠ .exited) (q : LoopPc) (c : List (List Token))
     (l : List LogEv) : Ctl { s with loop := q, cells := c, log := l } :=
   ⟨h.others, h.closed_iff, h.wne, h.done_iff, fun h3 => absurd (h.loopEx h3) hne,
-   fun h0 => absurd (h.noLoop h0) hne, h.purged_iff, h.rets, h.result⟩
+   fun h0 => absurd (h.noLoop h0) hne, h.purged_iff, h.rets, h.result, h.cd_iff, h.nil_cd, h.waitW⟩
 
 theorem Ctl.loop_exit {s : State} (h : Ctl s) : Ctl { s with loop := .exited } :=
-  ⟨h.others, h.closed_iff, h.wne, h.done_iff, fun _ => rfl, fun _ => rfl, h.purged_iff, h.rets, h.result⟩
+  ⟨h.others, h.closed_iff, h.wne, h.done_iff, fun _ => rfl, fun _ => rfl, h.purged_iff, h.rets, h.result, h.cd_iff,
+   h.nil_cd, h.waitW⟩
+
+theorem midCall_ph_lt {p : CPc} (h : p.midCall = true) : ph p < 7 := by
+  cases p <;> simp [CPc.midCall, ph] at h ⊢
+
+/-- while the winning call is inside `Close`, `closeDone` is still open -/
+theorem Ctl.cd_false {s : State} (h : Ctl s) {t : Nat} (hw : s.winner = some t)
+    (hmid : (s.closers t).midCall = true) : s.closeDone = false := by
+  have := h.cd_iff
+  rw [wpc_of_winner hw] at this
+  have hlt := midCall_ph_lt hmid
+  rw [this]; exact decide_eq_false (by omega)
 
 /-- a step of the winning call -/
 theorem Ctl.wstep {s : State} (h : Ctl s) {t : Nat} (hw : s.winner = some t) (hmid : (s.closers t).midCall = true)
     (p' : CPc) (dc pg : Bool) (c : List (List Token)) (l : List LogEv) (d : List Token)
-    (rs : List (Nat × Option Nat))
+    (rs : List (Nat × Option Nat)) (cd : Bool)
     (hph : 1 ≤ ph p') (hdc : dc = decide (2 ≤ ph p')) (hloop : 3 ≤ ph p' → s.loop = .exited)
-    (hpg : pg = decide (5 ≤ ph p'))
+    (hpg : pg = decide (5 ≤ ph p')) (hcd : cd = decide (7 ≤ ph p'))
     (hrs : rs = s.returns ∨ ∃ r, p' = .returned r ∧ rs = (t, r) :: s.returns)
     (hres : ∀ r, p' = .returned r → r = if s.closable then s.err else none) :
-    Ctl { setC s t p' with doneClosed := dc, purged := pg, cells := c, log := l, dropped := d, returns := rs } := by
-  have hwp : wpc { setC s t p' with doneClosed := dc, purged := pg, cells := c, log := l, dropped := d, returns := rs } = p' := by
+    Ctl { setC s t p' with doneClosed := dc, purged := pg, cells := c, log := l, dropped := d, returns := rs,
+                           closeDone := cd } := by
+  have hwp : wpc { setC s t p' with doneClosed := dc, purged := pg, cells := c, log := l, dropped := d, returns := rs,
+                                    closeDone := cd } = p' := by
     simp [wpc, setC, hw]
-  refine ⟨?_, h.closed_iff, ?_, ?_, ?_, h.noLoop, ?_, ?_, ?_⟩
+  refine ⟨?_, h.closed_iff, ?_, ?_, ?_, h.noLoop, ?_, ?_, ?_, ?_, ?_, ?_⟩
   · intro u hu
     have hu' : u ≠ t := fun e => hu (e ▸ hw)
     simp only [setC, hu', if_false]; exact h.others u hu
@@ -183,6 +205,18 @@ theorem Ctl.wstep {s : State} (h : Ctl s) {t : Nat} (hw : s.winner = some t) (hm
   · intro u r; simp only [setC]; split
     · intro hh; exact hres r hh
     · exact h.result u r
+  · rw [hwp]; exact hcd
+  · intro u hu
+    simp only [setC] at hu
+    split at hu
+    · rw [hu] at hph; simp [ph] at hph
+    · have := h.nil_cd u hu
+      rw [h.cd_false hw hmid] at this; cases this
+  · intro u hu
+    simp only [setC] at hu
+    split at hu
+    · rw [hu] at hph; simp [ph] at hph
+    · exact h.waitW u hu
 
 theorem ctl_step (s s' : State) (e : Ev) (h : Ctl s) (hs : step s e = some s') : Ctl s' := by
   cases e with
@@ -240,14 +274,155 @@ theorem ctl_step (s s' : State) (e : Ev) (h : Ctl s) (hs : step s e = some s') :
       -- CAS
       have hnw : s.winner ≠ some t := fun hw => by have := h.wne t hw; rw [hpc] at this; simp [ph] at this
       split at hs <;> (simp only [Option.some.injEq] at hs; subst hs)
-      · -- lost
+      · -- lost: to `<-s.closeDone`, nothing returned yet
+        have hwp : wpc (setC s t .waitWinner) = wpc s := by
+          simp only [wpc, setC]; split
+          · rfl
+          · next w hw => have : w ≠ t := fun e => hnw (e ▸ hw); simp [this]
+        next hclosed =>
+        refine ⟨?_, h.closed_iff, ?_, ?_, ?_, h.noLoop, ?_, ?_, ?_, ?_, ?_, ?_⟩
+        · intro u hu; simp only [setC]; split
+          · exact Or.inr (Or.inr rfl)
+          · exact h.others u hu
+        · intro w hw; have hwt : w ≠ t := fun e => hnw (e ▸ hw)
+          simp only [setC, hwt, if_false]; exact h.wne w hw
+        · rw [hwp]; exact h.done_iff
+        · rw [hwp]; exact h.loopEx
+        · rw [hwp]; exact h.purged_iff
+        · intro u r hm
+          simp only [setC]
+          split
+          · next hu => subst hu; have := h.rets u r hm; rw [hpc] at this; simp at this
+          · exact h.rets u r hm
+        · intro u r; simp only [setC]; split
+          · intro hh; cases hh
+          · exact h.result u r
+        · rw [hwp]; exact h.cd_iff
+        · intro u hu
+          simp only [setC] at hu
+          split at hu
+          · cases hu
+          · exact h.nil_cd u hu
+        · intro _ _; exact hclosed
+      · -- won
+        next hcl =>
+        have hwn : s.winner = none := by
+          have := h.closed_iff; cases hw : s.winner <;> simp_all
+        have hwp0 : wpc s = .start := by simp [wpc, hwn]
+        have hd := h.done_iff; have hpg := h.purged_iff; have hcd := h.cd_iff
+        rw [hwp0] at hd hpg hcd; simp [ph] at hd hpg hcd
+        refine ⟨?_, rfl, ?_, ?_, ?_, h.noLoop, ?_, ?_, ?_, ?_, ?_, fun _ _ => rfl⟩
+        · intro u hu; simp only [Option.some.injEq, ne_eq] at hu
+          have hu' : u ≠ t := fun e => hu e.symm
+          simp only [setC, hu', if_false]; exact h.others u (by simp [hwn])
+        · intro w hw; simp only [Option.some.injEq] at hw; subst hw; simp [setC, ph]
+        · simp [wpc, setC, ph, hd]
+        · simp [wpc, setC, ph]
+        · simp [wpc, setC, ph, hpg]
+        · intro u r hm; simp only [setC]; split
+          · next hu => subst hu; have := h.rets u r hm; rw [hpc] at this; simp at this
+          · exact h.rets u r hm
+        · intro u r; simp only [setC]; split
+          · intro hh; cases hh
+          · exact h.result u r
+        · simp [wpc, setC, ph, hcd]
+        · intro u hu
+          simp only [setC] at hu
+          split at hu
+          · cases hu
+          · exact h.nil_cd u hu
+    · next hpc =>
+      have hw := h.winner_of t (by rw [hpc]; simp [ph])
+      simp only [Option.some.injEq] at hs; subst hs
+      have hpg := h.purged_iff; rw [wpc_of_winner hw, hpc] at hpg; simp [ph] at hpg
+      have hcd := h.cd_false hw (by rw [hpc]; rfl)
+      exact h.wstep hw (by rw [hpc]; rfl) .doneClosedPc true s.purged s.cells s.log s.dropped s.returns s.closeDone
+        (by simp [ph]) (by simp [ph]) (by simp [ph]) (by simp [ph, hpg]) (by simp [ph, hcd]) (Or.inl rfl)
+        (by intro r hr; cases hr)
+    · next hpc =>
+      have hw := h.winner_of t (by rw [hpc]; simp [ph])
+      split at hs
+      · next hex =>
+        simp only [Option.some.injEq] at hs; subst hs
+        have hpg := h.purged_iff; rw [wpc_of_winner hw, hpc] at hpg; simp [ph] at hpg
+        have hd := h.done_iff; rw [wpc_of_winner hw, hpc] at hd; simp [ph] at hd
+        have hcd := h.cd_false hw (by rw [hpc]; rfl)
+        exact h.wstep hw (by rw [hpc]; rfl) (.pass .begin) s.doneClosed s.purged s.cells s.log s.dropped s.returns
+          s.closeDone
+          (by simp [ph]) (by simp [ph, hd]) (fun _ => hex) (by simp [ph, hpg]) (by simp [ph, hcd]) (Or.inl rfl)
+          (by intro r hr; cases hr)
+      · cases hs
+    · next p hpc =>
+      have hw := h.winner_of t (by rw [hpc]; simp [ph])
+      have hpg := h.purged_iff; rw [wpc_of_winner hw, hpc] at hpg; simp [ph] at hpg
+      have hd := h.done_iff; rw [wpc_of_winner hw, hpc] at hd; simp [ph] at hd
+      have hex := h.loopEx (by rw [wpc_of_winner hw, hpc]; simp [ph])
+      split at hs
+      · next s1 oq hp =>
+        simp only [Option.some.injEq] at hs; subst hs
+        obtain ⟨c, l, rfl⟩ := passStep_frame hp
+        have h34 := ph_afterPass oq
+        have hcd := h.cd_false hw (by rw [hpc]; rfl)
+        exact h.wstep hw (by rw [hpc]; rfl) (afterPass oq) s.doneClosed s.purged c l s.dropped s.returns s.closeDone
+          (by omega) (by rw [hd]; exact (decide_eq_true (by omega)).symm) (fun _ => hex)
+          (by rw [hpg]; exact (decide_eq_false (by omega)).symm)
+          (by rw [hcd]; exact (decide_eq_false (by omega)).symm) (Or.inl rfl)
+          (by intro r hr; exact absurd hr (afterPass_ne_returned oq r))
+      · cases hs
+    · next hpc =>
+      have hw := h.winner_of t (by rw [hpc]; simp [ph])
+      simp only [Option.some.injEq] at hs; subst hs
+      have hd := h.done_iff; rw [wpc_of_winner hw, hpc] at hd; simp [ph] at hd
+      have hex := h.loopEx (by rw [wpc_of_winner hw, hpc]; simp [ph])
+      have hcd := h.cd_false hw (by rw [hpc]; rfl)
+      exact h.wstep hw (by rw [hpc]; rfl) .flushPc s.doneClosed true (s.cells.map fun _ => [])
+        s.log (s.cells.flatten ++ s.dropped) s.returns s.closeDone
+        (by simp [ph]) (by simp [ph, hd]) (fun _ => hex) (by simp [ph]) (by simp [ph, hcd]) (Or.inl rfl)
+        (by intro r hr; cases hr)
+    · next hpc =>
+      have hw := h.winner_of t (by rw [hpc]; simp [ph])
+      simp only [Option.some.injEq] at hs; subst hs
+      have hpg := h.purged_iff; rw [wpc_of_winner hw, hpc] at hpg; simp [ph] at hpg
+      have hd := h.done_iff; rw [wpc_of_winner hw, hpc] at hd; simp [ph] at hd
+      have hex := h.loopEx (by rw [wpc_of_winner hw, hpc]; simp [ph])
+      have hcd := h.cd_false hw (by rw [hpc]; rfl)
+      exact h.wstep hw (by rw [hpc]; rfl) .reporterClose s.doneClosed s.purged s.cells (.flush :: s.log)
+        s.dropped s.returns s.closeDone
+        (by simp [ph]) (by simp [ph, hd]) (fun _ => hex) (by simp [ph, hpg]) (by simp [ph, hcd]) (Or.inl rfl)
+        (by intro r hr; cases hr)
+    · next hpc =>
+      have hw := h.winner_of t (by rw [hpc]; simp [ph])
+      have hpg := h.purged_iff; rw [wpc_of_winner hw, hpc] at hpg; simp [ph] at hpg
+      have hd := h.done_iff; rw [wpc_of_winner hw, hpc] at hd; simp [ph] at hd
+      have hex := h.loopEx (by rw [wpc_of_winner hw, hpc]; simp [ph])
+      split at hs
+      · next hcl =>
+        simp only [Option.some.injEq] at hs; subst hs
+        exact h.wstep hw (by rw [hpc]; rfl) (.returned s.err) s.doneClosed s.purged s.cells (.reporterClose :: s.log)
+          s.dropped ((t, s.err) :: s.returns) true
+          (by simp [ph]) (by simp [ph, hd]) (fun _ => hex) (by simp [ph, hpg]) (by simp [ph]) (Or.inr ⟨_, rfl, rfl⟩)
+          (by intro r hr; cases hr; simp [hcl])
+      · next hcl =>
+        simp only [Option.some.injEq] at hs; subst hs
+        exact h.wstep hw (by rw [hpc]; rfl) (.returned none) s.doneClosed s.purged s.cells s.log
+          s.dropped ((t, none) :: s.returns) true
+          (by simp [ph]) (by simp [ph, hd]) (fun _ => hex) (by simp [ph, hpg]) (by simp [ph]) (Or.inr ⟨_, rfl, rfl⟩)
+          (by intro r hr; cases hr; simp [hcl])
+    · cases hs
+    · cases hs
+    · next hpc =>
+      -- `<-s.closeDone`: enabled once the winning call has returned; the losing call returns nil
+      have hnw : s.winner ≠ some t := fun hw => by have := h.wne t hw; rw [hpc] at this; simp [ph] at this
+      split at hs
+      · next hcd =>
+        simp only [Option.some.injEq] at hs; subst hs
         have hwp : wpc { setC s t .returnedNil with returns := (t, none) :: s.returns } = wpc s := by
           simp only [wpc, setC]; split
           · rfl
           · next w hw => have : w ≠ t := fun e => hnw (e ▸ hw); simp [this]
-        refine ⟨?_, h.closed_iff, ?_, ?_, ?_, h.noLoop, ?_, ?_, ?_⟩
+        refine ⟨?_, h.closed_iff, ?_, ?_, ?_, h.noLoop, ?_, ?_, ?_, ?_, ?_, ?_⟩
         · intro u hu; simp only [setC]; split
-          · exact Or.inr rfl
+          · exact Or.inr (Or.inl rfl)
           · exact h.others u hu
         · intro w hw; have hwt : w ≠ t := fun e => hnw (e ▸ hw)
           simp only [setC, hwt, if_false]; exact h.wne w hw
@@ -265,95 +440,14 @@ theorem ctl_step (s s' : State) (e : Ev) (h : Ctl s) (hs : step s e = some s') :
         · intro u r; simp only [setC]; split
           · intro hh; cases hh
           · exact h.result u r
-      · -- won
-        next hcl =>
-        have hwn : s.winner = none := by
-          have := h.closed_iff; cases hw : s.winner <;> simp_all
-        have hwp0 : wpc s = .start := by simp [wpc, hwn]
-        have hd := h.done_iff; have hpg := h.purged_iff
-        rw [hwp0] at hd hpg; simp [ph] at hd hpg
-        refine ⟨?_, rfl, ?_, ?_, ?_, h.noLoop, ?_, ?_, ?_⟩
-        · intro u hu; simp only [Option.some.injEq, ne_eq] at hu
-          have hu' : u ≠ t := fun e => hu e.symm
-          simp only [setC, hu', if_false]; exact h.others u (by simp [hwn])
-        · intro w hw; simp only [Option.some.injEq] at hw; subst hw; simp [setC, ph]
-        · simp [wpc, setC, ph, hd]
-        · simp [wpc, setC, ph]
-        · simp [wpc, setC, ph, hpg]
-        · intro u r hm; simp only [setC]; split
-          · next hu => subst hu; have := h.rets u r hm; rw [hpc] at this; simp at this
-          · exact h.rets u r hm
-        · intro u r; simp only [setC]; split
-          · intro hh; cases hh
-          · exact h.result u r
-    · next hpc =>
-      have hw := h.winner_of t (by rw [hpc]; simp [ph])
-      simp only [Option.some.injEq] at hs; subst hs
-      have hpg := h.purged_iff; rw [wpc_of_winner hw, hpc] at hpg; simp [ph] at hpg
-      exact h.wstep hw (by rw [hpc]; rfl) .doneClosedPc true s.purged s.cells s.log s.dropped s.returns
-        (by simp [ph]) (by simp [ph]) (by simp [ph]) (by simp [ph, hpg]) (Or.inl rfl) (by intro r hr; cases hr)
-    · next hpc =>
-      have hw := h.winner_of t (by rw [hpc]; simp [ph])
-      split at hs
-      · next hex =>
-        simp only [Option.some.injEq] at hs; subst hs
-        have hpg := h.purged_iff; rw [wpc_of_winner hw, hpc] at hpg; simp [ph] at hpg
-        have hd := h.done_iff; rw [wpc_of_winner hw, hpc] at hd; simp [ph] at hd
-        exact h.wstep hw (by rw [hpc]; rfl) (.pass .begin) s.doneClosed s.purged s.cells s.log s.dropped s.returns
-          (by simp [ph]) (by simp [ph, hd]) (fun _ => hex) (by simp [ph, hpg]) (Or.inl rfl) (by intro r hr; cases hr)
+        · rw [hwp]; exact h.cd_iff
+        · intro _ _; exact hcd
+        · intro u hu
+          simp only [setC] at hu
+          split at hu
+          · cases hu
+          · exact h.waitW u hu
       · cases hs
-    · next p hpc =>
-      have hw := h.winner_of t (by rw [hpc]; simp [ph])
-      have hpg := h.purged_iff; rw [wpc_of_winner hw, hpc] at hpg; simp [ph] at hpg
-      have hd := h.done_iff; rw [wpc_of_winner hw, hpc] at hd; simp [ph] at hd
-      have hex := h.loopEx (by rw [wpc_of_winner hw, hpc]; simp [ph])
-      split at hs
-      · next s1 oq hp =>
-        simp only [Option.some.injEq] at hs; subst hs
-        obtain ⟨c, l, rfl⟩ := passStep_frame hp
-        have h34 := ph_afterPass oq
-        exact h.wstep hw (by rw [hpc]; rfl) (afterPass oq) s.doneClosed s.purged c l s.dropped s.returns
-          (by omega) (by rw [hd]; exact (decide_eq_true (by omega)).symm) (fun _ => hex)
-          (by rw [hpg]; exact (decide_eq_false (by omega)).symm) (Or.inl rfl)
-          (by intro r hr; exact absurd hr (afterPass_ne_returned oq r))
-      · cases hs
-    · next hpc =>
-      have hw := h.winner_of t (by rw [hpc]; simp [ph])
-      simp only [Option.some.injEq] at hs; subst hs
-      have hd := h.done_iff; rw [wpc_of_winner hw, hpc] at hd; simp [ph] at hd
-      have hex := h.loopEx (by rw [wpc_of_winner hw, hpc]; simp [ph])
-      exact h.wstep hw (by rw [hpc]; rfl) .flushPc s.doneClosed true (s.cells.map fun _ => [])
-        s.log (s.cells.flatten ++ s.dropped) s.returns
-        (by simp [ph]) (by simp [ph, hd]) (fun _ => hex) (by simp [ph]) (Or.inl rfl) (by intro r hr; cases hr)
-    · next hpc =>
-      have hw := h.winner_of t (by rw [hpc]; simp [ph])
-      simp only [Option.some.injEq] at hs; subst hs
-      have hpg := h.purged_iff; rw [wpc_of_winner hw, hpc] at hpg; simp [ph] at hpg
-      have hd := h.done_iff; rw [wpc_of_winner hw, hpc] at hd; simp [ph] at hd
-      have hex := h.loopEx (by rw [wpc_of_winner hw, hpc]; simp [ph])
-      exact h.wstep hw (by rw [hpc]; rfl) .reporterClose s.doneClosed s.purged s.cells (.flush :: s.log)
-        s.dropped s.returns
-        (by simp [ph]) (by simp [ph, hd]) (fun _ => hex) (by simp [ph, hpg]) (Or.inl rfl) (by intro r hr; cases hr)
-    · next hpc =>
-      have hw := h.winner_of t (by rw [hpc]; simp [ph])
-      have hpg := h.purged_iff; rw [wpc_of_winner hw, hpc] at hpg; simp [ph] at hpg
-      have hd := h.done_iff; rw [wpc_of_winner hw, hpc] at hd; simp [ph] at hd
-      have hex := h.loopEx (by rw [wpc_of_winner hw, hpc]; simp [ph])
-      split at hs
-      · next hcl =>
-        simp only [Option.some.injEq] at hs; subst hs
-        exact h.wstep hw (by rw [hpc]; rfl) (.returned s.err) s.doneClosed s.purged s.cells (.reporterClose :: s.log)
-          s.dropped ((t, s.err) :: s.returns)
-          (by simp [ph]) (by simp [ph, hd]) (fun _ => hex) (by simp [ph, hpg]) (Or.inr ⟨_, rfl, rfl⟩)
-          (by intro r hr; cases hr; simp [hcl])
-      · next hcl =>
-        simp only [Option.some.injEq] at hs; subst hs
-        exact h.wstep hw (by rw [hpc]; rfl) (.returned none) s.doneClosed s.purged s.cells s.log
-          s.dropped ((t, none) :: s.returns)
-          (by simp [ph]) (by simp [ph, hd]) (fun _ => hex) (by simp [ph, hpg]) (Or.inr ⟨_, rfl, rfl⟩)
-          (by intro r hr; cases hr; simp [hcl])
-    · cases hs
-    · cases hs
 
 theorem ctl_run (s s' : State) (es : List Ev) (h : Ctl s) (hr : run s es = some s') : Ctl s' := by
   induction es generalizing s with
@@ -447,6 +541,9 @@ theorem step_params (s s' : State) (e : Ev) (hs : step s e = some s') : SamePara
     · split at hs <;> (simp only [Option.some.injEq] at hs; subst hs) <;> exact ⟨rfl, rfl, rfl, rfl⟩
     · cases hs
     · cases hs
+    · split at hs
+      · simp only [Option.some.injEq] at hs; subst hs; exact ⟨rfl, rfl, rfl, rfl⟩
+      · cases hs
 
 theorem run_params (s s' : State) (es : List Ev) (hr : run s es = some s') : SameParams s s' := by
   induction es generalizing s with
